@@ -157,7 +157,12 @@ def check_spec(ctx, spec):
     page_rows = []
     seen_rows = []
     extra = E.extra_roles(spec)
-    pbkeys = [tuple(E.display(v) for v in k) for k in pbkeys]
+    has_null = any(None in k for k in pbkeys)
+    if has_null:
+        ctx.count("null_level_docs")
+    # a null level is "no value" just as the divider is: neither is shown, and a step from one to the other is
+    # not a change of value the statement speaks about (its quantifier names divider groups only)
+    pbkeys = [tuple(E.DIVIDER if v is None else E.display(v) for v in k) for k in pbkeys]
     sbkeys = [tuple(E.display(v) for v in k) for k in sbkeys]
     for p, pg in enumerate(doc.pages):
         seq = []
@@ -172,6 +177,8 @@ def check_spec(ctx, spec):
                     ctx.violation(f"unclassifiable block on page {p + 1}: {txt!r}", case, {"page": p})
                 return
             if role == "heading":
+                if has_null and b.texts[0] == "":
+                    continue        # an empty row for a null level is neither demanded nor forbidden
                 seq.append(("H", b.texts[0]))
             elif role == "data":
                 k = E.data_key(b)
@@ -302,6 +309,8 @@ def random_spec(rng):
         sbn = rng.choice([1, 2])
     nrow = rng.randint(3, 30)
     n = rng.randint(1, min(70, nrow * 5))
+    if rng.random() < 0.08:
+        n = rng.randint(100, 280)       # tables of a few hundred rows
     total = levels + sbn
     keys = G.gen_group_keys(rng, n, total, maxruns=rng.choice([2, 3, 4, 6]), reuse_inner=False)
     reuse = rng.random() < 0.6
@@ -351,14 +360,14 @@ def random_spec(rng):
         body["subline_by"] = [f"N{lvl}" for lvl in range(sbn)]
     if rng.random() < 0.4:
         body["pageby_header"] = rng.random() < 0.5
-    if rng.random() < 0.25:
+    if rng.random() < (0.6 if n >= 100 else 0.25):
         # group values off the sentinel scheme: falsy numbers (0, 0.0, False), spellings next to the divider,
         # labels that differ by blanks only
         gcols = [c for c in cols if c["name"] in set(body.get("page_by") or []) | set(body.get("subline_by") or [])]
         c = rng.choice(gcols) if gcols else None
         if c is not None:
             labels = sorted(set(c["values"]))
-            kind = rng.choice(["int", "float", "bool", "neardiv", "blanks"])
+            kind = rng.choice(["int", "float", "bool", "neardiv", "blanks", "null", "null"])
             if kind == "int":
                 m = {v: i for i, v in enumerate(labels)}
                 c["dtype"], c["values"] = "int", [m[v] for v in c["values"]]
@@ -372,6 +381,10 @@ def random_spec(rng):
                 alt = ["----- ", " -----", "------", "----", "- - -"]
                 m = {v: (alt[i % len(alt)] if i < 2 else v) for i, v in enumerate(rng.sample(labels, len(labels)))}
                 c["values"] = [m[v] for v in c["values"]]
+            elif kind == "null" and c["name"] in (body.get("page_by") or []):
+                # one level value is missing (null) in one group, at any position
+                t = rng.choice(labels)
+                c["values"] = [None if v == t else v for v in c["values"]]
             elif kind == "blanks" and len(labels) >= 2:
                 a = labels[0]
                 m = {labels[0]: a, labels[1]: a + " "}
